@@ -373,3 +373,186 @@ package rpc
 //@   requires t != nil
 //@   ensures gg_ncall() == old(gg_ncall()) || (oneCallTo(addr) && implies(err == ErrShutdown, gb_markedDead(gg_gotpc())))
 //@   ensures implies(len(addr) == 0, err == ErrDial && gg_ncall() == old(gg_ncall()))
+
+// ---------------------------------------------------------------------------
+// Part 4: Client (client.go) — lock Client.lock
+// ---------------------------------------------------------------------------
+
+//@ pure exists_live_addr(c *Client, a string) bool = has(c.targets, sid(a)) && c.targets[sid(a)] != nil
+//@ pure liveT(c *Client, t *target) bool = t != nil && has(c.targets, sid(t.address)) && c.targets[sid(t.address)] == t
+
+//@ lockinv Client.lock
+//@   property C16 C17 C18
+//@   guards Client.targets, Client.list, Client.minHeap, Client.last, Client.seq, Client.pending, Client.pos, Client.lastTime, Client.closed, Map<map[string]*target>, Map<map[uint64]*waiter>, Elem<*target>, Chan.closed@Client.done
+//@   invariant forallkey(k, self.targets, self.targets[k] != nil && sid(self.targets[k].address) == k && k != 0)
+//@   invariant forall(i, 0, len(self.list), liveT(self, self.list[i]))
+//@   invariant forall(i, 0, len(self.minHeap), liveT(self, self.minHeap[i]))
+//@   invariant len(self.minHeap) == len(self.list) && (len(self.list) == 0 || arr(self.minHeap) != arr(self.list))
+//@   invariant len(self.list) == 0 || (0 <= self.pos && self.pos < len(self.list))
+//@   invariant [C18] implies(self.closed == 1, len(self.pending) == 0)
+//@   invariant [C18] forallkey(s, self.pending, self.pending[s] != nil && s < self.seq)
+//@   invariant self.pending != nil
+//@   invariant [C20] implies(self.closed == 0, self.done == nil || !chanClosed(self.done))
+//@   assumed self.seq < 1<<62
+
+//@ func (*Client).schedule
+//@   property C16 C17
+//@   requires c != nil && holds(Client_lock)
+//@   requires forall(i, 0, len(c.list), liveT(c, c.list[i])) && forall(i, 0, len(c.minHeap), liveT(c, c.minHeap[i]))
+//@   requires forallkey(k, c.targets, c.targets[k] != nil && sid(c.targets[k].address) == k && k != 0)
+//@   requires len(c.minHeap) == len(c.list) && (len(c.list) == 0 || (0 <= c.pos && c.pos < len(c.list))) && (len(c.list) == 0 || arr(c.minHeap) != arr(c.list))
+//@   ghostdef gb_mark(o *target) = liveT(c, o)
+//@   ensures implies(old(len(c.list)) == 0, err == ErrDial && result1 == nil && len(result0) == 0)
+//@   ensures implies(old(len(c.list)) == 1, err == nil && result1 == nil && sid(result0) == sid(old(c.list[0].address)) && c.pos == old(c.pos))
+//@   ensures [C16] implies(old(len(c.list)) >= 2, err == nil && len(result0) == 0 && liveT(c, result1))
+//@   ensures [C17] implies(old(len(c.list)) >= 2 && c.Scheduling != 1 && c.Scheduling != 2, result1 == old(c.list[c.pos]) && c.pos == (old(c.pos) + 1) % old(len(c.list)))
+//@   ensures [C17] implies(old(len(c.list)) >= 2 && c.Scheduling == 1, c.pos == old(c.pos))
+//@   ensures len(c.list) == old(len(c.list)) && forall(i, 0, len(c.list), c.list[i] == old(c.list[i]))
+//@   ensures forall(i, 0, len(c.minHeap), liveT(c, c.minHeap[i])) && len(c.minHeap) == old(len(c.minHeap)) && (len(c.list) == 0 || (0 <= c.pos && c.pos < len(c.list)))
+//@   ensures implies(old(len(c.list)) == 1, len(result0) > 0)
+//@   modifies c.pos, c.lastTime, c.minHeap[0:len(c.minHeap)]
+//@   ghostset gb_routed(result1) = gb_routed(result1) || liveT(c, result1)
+//@   ghostset gg_routedaddr() = ite(len(result0) > 0, sid(result0), sid(result1.address))
+//@   ensures [C16] implies(err == nil && result1 == nil, exists_live_addr(c, result0))
+
+// heap helpers: elements stay non-nil and keep any ghost mark (the mark is an arbitrary unchanged predicate on targets:
+// "heapify only permutes"). The heap-order result (root is minimal) is covered by a bounded stand-in, see DESIGN.md.
+//@ pure allMarked(h []*target, n int) bool = forall(j, 0, n, h[j] != nil && gb_mark(h[j]))
+//@ func heapDown
+//@   property C17 C16
+//@   requires holds(Client_lock) && 0 <= i && i < n && n <= len(h) && allMarked(h, n)
+//@   ensures allMarked(h, n)
+//@   modifies h[0:n]
+//@   loop 1: invariant 0 <= parent && parent < n && allMarked(h, n)
+//@ func minHeap
+//@   property C17 C16
+//@   requires holds(Client_lock) && allMarked(h, len(h))
+//@   ensures allMarked(h, len(h))
+//@   modifies h[0:len(h)]
+//@   loop 1: invariant 0-1 <= i && i < n && n == len(h) && allMarked(h, len(h))
+
+//@ pure drainInv(m map[uint64]*waiter) bool = m != nil && len(m) == rangen() - rangeidx() &&
+//@      forall(i, 0, rangeidx(), !has(m, rangekey(i))) && forall(i, rangeidx(), rangen(), has(m, rangekey(i))) &&
+//@      forallkey(k, m, rangehad(k) && m[k] != nil)
+
+//@ func (*Client).checkPending
+//@   property C18
+//@   requires c != nil && holds(Client_lock) && c.pending != nil && forallkey(s, c.pending, c.pending[s] != nil && s < c.seq)
+//@   ensures len(c.pending) == 0 || len(c.pending) == old(len(c.pending))
+//@   ensures forallkey(s, c.pending, c.pending[s] != nil && s < c.seq)
+//@   ensures [C18] implies(len(c.list) > 0 && len(c.pending) != 0, len(c.pending) == old(len(c.pending)))
+//@   ensures c.pending == old(c.pending) && c.seq == old(c.seq)
+//@   loop 1: invariant drainInv(c.pending) && c.pending == old(c.pending) && c.seq == old(c.seq) && forallkey(s, c.pending, s < c.seq)
+
+//@ func (*Client).wait
+//@   property C18
+//@   requires c != nil && w != nil
+
+//@ func (*Client).Close
+//@   property C18 C20
+//@   requires c != nil
+//@   loop 1: invariant drainInv(c.pending) && c.closed == 1
+
+//@ func (*Client).Update
+//@   property C16
+//@   requires c != nil
+//@   loop 1: invariant m != nil && fresh(m) && forallkey(k, m, m[k] != nil && sid(m[k].address) == k && k != 0)
+
+//@ iface RoundTripper.Close
+//@   ensures true
+
+//@ field target.latency: quiescent
+
+//@ func (*target).Alive
+//@   property C18
+//@   requires t != nil
+//@   ensures result == (err != ErrDial) && t.alive == result
+
+//@ func (*target).Update
+//@   property C17
+//@   requires t != nil && alpha >= 0.0 && alpha <= 1.0
+//@   ensures implies(err == ErrDial, t.latency == clientLatency && !t.alive)
+//@   ensures implies(err != ErrDial, t.alive)
+//@   ensures implies(err != ErrDial && old(t.latency) >= clientLatency, t.latency == new)
+//@   ensures implies(err != ErrDial && old(t.latency) < clientLatency && old(t.latency) >= 0 && new >= 0, float64(t.latency) <= float64(old(t.latency))*alpha + float64(new)*(1.0-alpha) &&
+//@       float64(old(t.latency))*alpha + float64(new)*(1.0-alpha) < float64(t.latency) + 1.0)
+
+
+//@ func (*Client).check
+//@   property C16 C18
+//@   requires c != nil && t != nil
+//@   requires c.Alpha >= 0.0 && c.Alpha <= 1.0
+//@   loop 1: invariant forall(i, 0, len(l), liveT(c, l[i])) && fresh(l) && forall(i, 0, len(c.list), liveT(c, c.list[i])) && forall(i, 0, len(c.minHeap), liveT(c, c.minHeap[i]))
+
+//@ field Client.donePool: pool chan *waiter
+//@ field Client.waiterPool: pool *waiter
+
+//@ extern Client.Director
+//@   ensures true
+
+//@ func (*Client).director
+//@   property C16 C18
+//@   requires c != nil && c.donePool != nil && c.waiterPool != nil
+//@   ghostset ggb_dirfailed() = err != nil
+//@   ghostset gg_diraddr() = ite(len(address) > 0, sid(address), sid(t.address))
+//@   ensures [C16] implies(err == nil && len(address) == 0, t != nil && gb_routed(t))
+//@   ensures [C16] implies(err == nil && len(address) > 0, t == nil)
+
+// RoundTripper interface methods as seen by the Client: ghost record of the address each call was sent to.
+//@ iface RoundTripper.Call
+//@   params rt, addr, serviceMethod, args, reply
+//@   ghostset gg_rtcalls() = gg_rtcalls() + 1
+//@   ghostset gg_rtaddr() = sid(addr)
+//@ iface RoundTripper.CallWithContext
+//@   params rt, ctx, addr, serviceMethod, args, reply
+//@   ghostset gg_rtcalls() = gg_rtcalls() + 1
+//@   ghostset gg_rtaddr() = sid(addr)
+//@ iface RoundTripper.Go
+//@   params rt, addr, serviceMethod, args, reply, done
+//@   ghostset gg_rtcalls() = gg_rtcalls() + 1
+//@   ghostset gg_rtaddr() = sid(addr)
+//@ iface RoundTripper.RoundTrip
+//@   params rt, addr, call
+//@   ghostset gg_rtcalls() = gg_rtcalls() + 1
+//@   ghostset gg_rtaddr() = sid(addr)
+//@ iface RoundTripper.NewStream
+//@   params rt, addr, key
+//@   ghostset gg_rtcalls() = gg_rtcalls() + 1
+//@   ghostset gg_rtaddr() = sid(addr)
+//@ iface RoundTripper.Ping
+//@   params rt, addr
+//@   ghostset gg_rtcalls() = gg_rtcalls() + 1
+//@   ghostset gg_rtaddr() = sid(addr)
+
+//@ pure clientReady(c *Client) bool = c != nil && !isnil(c.Transport) && c.donePool != nil && c.waiterPool != nil && c.Alpha >= 0.0 && c.Alpha <= 1.0
+//@ pure routedOnce() bool = gg_rtcalls() == old(gg_rtcalls()) + 1 && !ggb_dirfailed() && gg_rtaddr() == gg_diraddr()
+
+//@ func (*Client).Call
+//@   property C16 C18 C04
+//@   requires clientReady(c)
+//@   ensures [C16] routedOnce() || (ggb_dirfailed() && gg_rtcalls() == old(gg_rtcalls()) && result != nil)
+//@ func (*Client).CallWithContext
+//@   property C16 C18 C04 C19
+//@   requires clientReady(c)
+//@   ensures [C16] routedOnce() || (ggb_dirfailed() && gg_rtcalls() == old(gg_rtcalls()) && result != nil)
+//@ func (*Client).Go
+//@   property C16 C18 C04
+//@   requires clientReady(c)
+//@   ensures [C16] routedOnce() || (ggb_dirfailed() && gg_rtcalls() == old(gg_rtcalls()) + 1 && gg_rtaddr() == 0)
+//@ func (*Client).RoundTrip
+//@   property C16 C18 C04
+//@   requires clientReady(c)
+//@   ensures [C16] routedOnce() || (ggb_dirfailed() && gg_rtcalls() == old(gg_rtcalls()) + 1 && gg_rtaddr() == 0)
+//@ func (*Client).NewStream
+//@   property C16 C18 C04
+//@   requires clientReady(c)
+//@   ensures [C16] routedOnce() || (ggb_dirfailed() && gg_rtcalls() == old(gg_rtcalls()) + 1 && gg_rtaddr() == 0)
+//@ func (*Client).Ping
+//@   property C16 C18 C04
+//@   requires clientReady(c)
+//@   ensures [C16] routedOnce() || (ggb_dirfailed() && gg_rtcalls() == old(gg_rtcalls()) + 1 && gg_rtaddr() == 0)
+
+//@ func (*Client).detect
+//@   property C18 C16
+//@   requires c != nil && c.Alpha >= 0.0 && c.Alpha <= 1.0
+//@   loop 1: invariant true
